@@ -111,14 +111,59 @@ def _build_variants(inp):
     return VA.from_rows(recs, columns=["chromosome", "start", "end", "ref", "alt", "alt_freq"])
 
 
+ROUTES = ("fresh", "masked", "permuted", "offset")
+
+
 def _build_table(inp):
+    """The segment table, built fresh for every call (no cached chr_x/chr_y label), by one of several
+    construction routes that give the SAME rows in the same order but a different row index:
+      fresh     CopyNumArray.from_rows: labels 0..n-1
+      masked    boolean-mask selection out of a larger table (decoy rows in between): gapped labels
+      permuted  rows entered in another order and brought back by position, no reset_index: permuted labels
+      offset    labels start at 1000
+    """
     import numpy as np
     from cnvlib.cnary import CopyNumArray as CNA
+    route = inp.get("route", "fresh")
     rows = [(r[PFX] + r[BASE], r[S], r[E], "-", _row_log2(r), 10, 1.0) for r in inp["rows"]]
-    arr = CNA.from_rows(rows, columns=COLS)
+    n = len(rows)
+    if route == "masked":
+        big, keep = [], []
+        for k, r in enumerate(rows):
+            if k % 2 == 0:                     # a decoy in front of every other row (and the first)
+                big.append((r[0], max(0, r[1] - 7), max(1, r[1] - 3) if r[1] >= 4 else 1, "decoy", -1.4, 1, 1.0))
+                keep.append(False)
+            big.append(r)
+            keep.append(True)
+        big.append((rows[-1][0], rows[-1][2] + 5, rows[-1][2] + 9, "decoy", -1.4, 1, 1.0))
+        keep.append(False)
+        arr = CNA.from_rows(big, columns=COLS)[np.array(keep)]
+    elif route == "permuted" and n > 1:
+        perm = list(range(n))[::-1] if n < 4 else [k for k in range(n) if k % 3 == 1] + \
+            [k for k in range(n) if k % 3 == 2] + [k for k in range(n) if k % 3 == 0]
+        arr = CNA.from_rows([rows[k] for k in perm], columns=COLS)
+        inv = [0] * n
+        for pos, k in enumerate(perm):
+            inv[k] = pos
+        arr.data = arr.data.iloc[inv]          # intended order again, labels stay permuted
+    else:
+        arr = CNA.from_rows(rows, columns=COLS)
+        if route in ("offset", "permuted"):
+            arr.data.index = arr.data.index + 1000
+    if len(arr) != n or [(c, int(a), int(b)) for c, a, b in zip(arr.chromosome, arr.start, arr.end)] != \
+            [(r[0], r[1], r[2]) for r in rows]:
+        raise MachineryError(f"table construction route {route} did not reproduce the rows")
     if inp["vmode"] == "column":
         arr["baf"] = [np.nan if r[BD] == 0 else r[BN] / r[BD] for r in inp["rows"]]
     return arr
+
+
+def assign_routes(tables, start=0):
+    """construction route as an input dimension: rotate over ROUTES, table by table"""
+    for k, t in enumerate(tables):
+        t["tid"] = start + k + 1
+        t["route"] = "fresh" if t["op"].endswith("_cli") else ROUTES[(start + k) % len(ROUTES)]
+    return tables
 
 
 def _encode_out(df, k):
@@ -210,7 +255,7 @@ def execute(inp):
     import warnings
     warnings.simplefilter("ignore")
     rec = {k: inp[k] for k in INPUT_KEYS}
-    rec.update(nin=len(inp["rows"]), nout=0, err="", out=[])
+    rec.update(route=inp.get("route", "fresh"), tid=int(inp.get("tid", 0)), nin=len(inp["rows"]), nout=0, err="", out=[])
     try:
         df = _do_cli(inp) if inp["op"].endswith("_cli") else _do_call(inp)
     except MachineryError:
@@ -239,7 +284,7 @@ def execute_split(inp):
     out = []
     for row, o in zip(rec["rows"], rec["out"]):
         r = {k: rec[k] for k in INPUT_KEYS if k != "rows"}
-        r.update(rows=[row], nin=rec["nin"], nout=rec["nout"], err="", out=[o])
+        r.update(rows=[row], route=rec["route"], tid=rec["tid"], nin=rec["nin"], nout=rec["nout"], err="", out=[o])
         out.append(r)
     return {"recs": out}
 
@@ -363,7 +408,8 @@ def split_record(rec):
     out = []
     for row, o in zip(rec["rows"], rec["out"]):
         r = {k: rec[k] for k in INPUT_KEYS if k != "rows"}
-        r.update(rows=[row], nin=rec["nin"], nout=rec["nout"], err="", out=[o])
+        r.update(rows=[row], route=rec.get("route", "fresh"), tid=rec.get("tid", 0), nin=rec["nin"], nout=rec["nout"],
+                 err="", out=[o])
         out.append(r)
     return out
 
@@ -378,7 +424,7 @@ def merge_rows(recs, extra_key):
         if r["err"] or len(r["rows"]) != 1 or len(r["out"]) != 1:
             order.append(r)
             continue
-        k = (batch_key(r), r["nin"], r["nout"], extra_key(r["rows"][0]))
+        k = (batch_key(r), r.get("tid", 0), r["nin"], r["nout"], extra_key(r["rows"][0]))
         g = groups.get(k)
         if g is None:
             g = dict(r)
@@ -394,7 +440,7 @@ def merge_rows(recs, extra_key):
 # core.Ctx.validate writes the trace with json.dump + a Python-level recursive guard (~0.4 ms per row here) and
 # parses both states of every record from the verdict dump.  Same semantics, C-accelerated encoding:
 _re_null = re.compile(r"[:,\[]null")
-_re_float = re.compile(r"\d\.\d|\d[eE][+-]?\d|NaN|Infinity")
+_re_float = re.compile(r"\d\.\d|\d[eE][+-]?\d")   # NaN / Infinity are rejected by dumps(allow_nan=False)
 _re_bigint = re.compile(r"-?\d{10,}")
 
 
